@@ -8,7 +8,7 @@ import sys
 import coverage
 
 d = sys.argv[1]
-subs = sys.argv[2:]
+subs = [a for a in sys.argv[2:] if not a.startswith('--')]
 cov = coverage.Coverage(data_file=os.path.join(d, 'cov'))
 cov.combine([os.path.join(d, f) for f in os.listdir(d) if f.startswith('cov.')], keep=True)
 data = cov.get_data()
@@ -26,8 +26,30 @@ for f in files:
         continue
     if not executable:
         continue
+    # module-level statements (imports, def / class lines, decorators) run at import time, before the
+    # recording starts in the forked workers: only lines inside function bodies are of interest
+    import ast
+    src = open(f).read()
+    body_lines = set()
+    for node in ast.walk(ast.parse(src)):
+        if isinstance(node, (ast.FunctionDef, ast.AsyncFunctionDef)):
+            for st in node.body:
+                for sub in ast.walk(st):
+                    if hasattr(sub, 'lineno'):
+                        body_lines.update(range(sub.lineno, getattr(sub, 'end_lineno', sub.lineno) + 1))
+    # nested def lines inside functions are executed at call time; keep them
+    executable = [ln for ln in executable if ln in body_lines]
+    missing = [ln for ln in missing if ln in body_lines]
+    if not missing:
+        continue
     tot_e += len(executable)
     tot_m += len(missing)
+    if '--src' in sys.argv:
+        lines = src.splitlines()
+        print('== %s  %d/%d body lines never executed' % (f.replace('/repo/src/rsatoolbox/', ''), len(missing), len(executable)))
+        for ln in missing:
+            print('   %4d: %s' % (ln, lines[ln - 1].rstrip()[:150]))
+        continue
     # compress missing lines into ranges
     rng, out = [], []
     for ln in missing:
